@@ -13,7 +13,7 @@ CLAIMED = {
         technique="TLA+ Indent rule (TLC) replayed on real entries and postings",
         ref="§6 C18"),
     'C12': dict(
-        text="TokenCodec.tla transcribes the string-like codecs (EscapedString escape/unescape, BlockComment format/parse/line splitting, InlineComment) over character classes; TLC checks the round-trip laws for every class string up to the bound and the token state machine [value, indent, raw] under every value / indent / raw_text assignment sequence; every string (3 concrete representatives per class incl. astral characters, FF/NEL/U+2028, CR LF / CR CR LF) is replayed on the real classes: value read-back, raw text lexed back by the real lexer as exactly one token of the type with the value, host document round trip, from_raw_text verbatim. Dates, plain-notation decimals and the simple token types are covered by shape lists checked against the lexer.",
+        text="TokenCodec.tla defines the lexeme language of the string terminal (every lexeme must be lexed by the real lexer as one string with the specified value) and transcribes the string-like codecs (EscapedString escape/unescape, BlockComment format/parse/line splitting, InlineComment) over character classes; TLC checks the round-trip laws for every class string up to the bound and the token state machine [value, indent, raw] under every value / indent / raw_text assignment sequence; every string (3 concrete representatives per class incl. astral characters, FF/NEL/U+2028, CR LF / CR CR LF) is replayed on the real classes: value read-back, raw text lexed back by the real lexer as exactly one token of the type with the value, host document round trip, from_raw_text verbatim. Dates, plain-notation decimals and the simple token types are covered by shape lists checked against the lexer.",
         note="Small scope over character classes (strings <= 3-4 classes); one lossy case (inline comment value starting with a blank) is a recorded finding.",
         technique="TLA+ TokenCodec laws (TLC) + replay on the real token classes and lexer",
         ref="§6 C12"),
@@ -23,12 +23,12 @@ CLAIMED = {
         technique="TLA+ Construct argument-space enumeration (TLC) + construction / re-parse comparison",
         ref="§6 C15"),
     'C17': dict(
-        text="Spacing.tla defines, over a token row of kinds zero-width / blank / newline / other, the run a spacing accessor denotes and what its setter may change (exactly that run, replaced by fresh whitespace tokens of the assigned length, everything else identical in identity and order, non-empty values read back); get / set executions on every model and token with accessors of Layout.tla documents (both sides, sampled strings over space, tab, LF, CRLF, both attribution modes, load factor rotated so runs straddle block boundaries) are recorded and validated by TLC; neighbours sharing a pure blank gap must read the same string; the tree must stay well formed and a later edit through a neighbour must still work.",
+        text="Spacing.tla defines, over a token row of kinds zero-width / blank / newline / other, the run a spacing accessor denotes and what its setter may change (exactly that run, replaced by fresh whitespace tokens of the assigned length, everything else identical in identity and order, non-empty values read back); get / set executions on every model and token with accessors of Layout.tla documents (both sides, sampled strings over space, tab, LF, CRLF, both attribution modes, load factor rotated so runs straddle block boundaries) are recorded and validated by TLC; neighbours sharing a pure blank gap (documents with blank / whitespace-only lines in both line-end conventions; orphan blank tokens of any class count as blanks) must both read the whole text between them; the tree must stay well formed and a later edit through a neighbour must still work.",
         note="Documents of <= 2-3 lines (+ sampled longer), 2-4 strings per model and side.",
         technique="TLC trace validation (Spacing.tla) of recorded accessor executions",
         ref="§6 C17"),
     'C11': dict(
-        text="Docs.tla states the rules for stores and copies (a deep copy is a new store with disjoint tokens whose text is the span's text, a complete tree, equal both ways; an edit through one store leaves every other store's text and token identities untouched); copy.deepcopy of every model at every depth of Layout.tla documents - in both attribution modes and after hand-back-and-forth claim sequences that move placeholders - and of the repeated-field wrappers themselves, followed by edits on the copy and on the original and by inserting a copy, is recorded and validated by TLC.",
+        text="Docs.tla states the rules for stores and copies (a deep copy is a new store with disjoint tokens whose text is the span's text, a complete tree, equal both ways; an edit through one store leaves every other store's text and token identities untouched); comments inserted through the API, released and claimed by the neighbouring field are copied at every step; copy.deepcopy of every model at every depth of Layout.tla documents - in both attribution modes and after hand-back-and-forth claim sequences that move placeholders - and of the repeated-field wrappers themselves, followed by edits on the copy and on the original and by inserting a copy, is recorded and validated by TLC.",
         note="Documents of <= 2-3 (quick) / 4 lines; edits: token text changes, meta append/pop, spacing.",
         technique="TLC trace validation (Docs.tla) of recorded deepcopy / edit executions",
         ref="§2.7, §6 C11"),
@@ -48,17 +48,17 @@ CLAIMED = {
         technique="TLC trace validation (CommentOwnership.tla) + TLA+ Rule oracle from Layout.tla against the real attribution",
         ref="§2.6, §6 C14"),
     'C13': dict(
-        text="NumExpr.tla transcribes the concrete syntax tree of number expressions and the parenthesisation helpers; TLC proves over exact rationals that the value of every result equals the arithmetic result for all operator chains (depth 2-3, plain / in-place / reflected / unary, int / Decimal / expression operands) from 11 initial shapes, and for literals inside the expression assigned in place through their own token after every node's value has been read; every chain is replayed on real NumberExpr objects, free-standing and attached in postings, balances and meta values: value, independent left-to-right Decimal evaluation of the printed text, re-parse, operands and their documents unchanged for non-in-place forms, document frame for in-place forms.",
+        text="NumExpr.tla transcribes the concrete syntax tree of number expressions and the parenthesisation helpers; TLC proves over exact rationals that the value of every result equals the arithmetic result for all operator chains (depth 2-3, plain / in-place / reflected / unary, int / Decimal / expression operands) from 11 initial shapes (the expression itself as an operand included), and for literals inside the expression assigned in place through their own token after every node's value has been read; every chain is replayed on real NumberExpr objects, free-standing and attached in postings, balances and meta values: value, independent left-to-right Decimal evaluation of the printed text, re-parse, operands and their documents unchanged for non-in-place forms, document frame for in-place forms.",
         note="Structure over exact rationals in the specification; decimal accuracy only by comparison with an independent evaluator. Division by zero excluded.",
         technique="TLA+ NumExpr value invariant (TLC) + chain replay on the real operators",
         ref="§6 C13"),
     'C16': dict(
-        text="Editor.tla models a recursive / single-file editing session over a disk: include graphs (by name, *.bean, **/*.bean, dangling), BFS reachability, body operations (edit by appending, edit of one token in place with the same extent, edit-and-revert, delete key, add key, add empty file, add a file two missing directory levels deep), normal and raising exit, with the expected final disk in every behaviour; TLC checks reachability invariants and enumerates all sessions; each is replayed on the real Editor in a temporary directory comparing bytes, existence, mtime (not rewritten), mapping keys and parse count (each file once).",
+        text="Editor.tla models a recursive / single-file editing session over a disk: include graphs (by name, *.bean, **/*.bean, dangling), BFS reachability, body operations (edit by appending, edit of one token in place with the same extent, edit-and-revert, delete key, add key, add empty file, add a file two missing directory levels deep, take an entry out and put it back under another spelling of the same path); half of the sessions live in a directory whose name contains glob metacharacters, normal and raising exit, with the expected final disk in every behaviour; TLC checks reachability invariants and enumerates all sessions; each is replayed on the real Editor in a temporary directory comparing bytes, existence, mtime (not rewritten), mapping keys and parse count (each file once).",
         note="3 (quick) / 4 (thorough) files in a 3-level directory tree; 5 root spellings; LF / CRLF / mixed / no final newline.",
         technique="TLA+ Editor session model (TLC) replayed on real temporary directories",
         ref="§6 C16"),
     'C02': dict(
-        text="Every token of every Layout.tla document is assigned replacement values/raw texts (per-kind classes: same width, wider, narrower, adding/removing line breaks, non-canonical spellings) singly and in sequences; each assignment is one recorded event with the full observation battery, and TLC validates every trace against TokenSeqTrace.tla: row identity/order and length unchanged, every other token keeps its text, the assigned token carries exactly the assigned text, refused assignments are stutters. The same assignments are also made through the owning model's value property (incl. the empty string), where the one token may be replaced by one new token at the same position.",
+        text="Every token of every Layout.tla document is assigned replacement values/raw texts (per-kind classes: same width, wider, narrower, adding/removing line breaks, non-canonical spellings) singly and in sequences; each assignment is one recorded event with the full observation battery, and TLC validates every trace against TokenSeqTrace.tla: row identity/order and length unchanged, every other token keeps its text, the assigned token carries exactly the assigned text, refused assignments are stutters. The same assignments are also made through the owning model's value property (incl. the empty string), where the one token may be replaced by one new token at the same position, and inside Editor.edit_file sessions on documents with and without a final newline, where the file afterwards must be the input with exactly that span replaced.",
         note="Documents of <= 3-4 lines (<= 48 tokens), a few replacement representatives per token kind, block size rotated over 2,3,4,1000 and adversarial block shapes (largest next to smallest legal block).",
         technique="TLC trace validation (TokenSeqTrace.tla) of recorded token assignments on Layout.tla documents",
         ref="§6 C02"),
@@ -68,12 +68,12 @@ CLAIMED = {
         technique="TLA+ CostSpec refinement edges (TLC) replayed on the real cost setters",
         ref="§2.5, §6 C09"),
     'C01': dict(
-        text="TLC enumerates every document of Layout.tla (all sequences of structural line classes up to N lines, single-line deviations, LF/CRLF, final line end) together with the grammar's nesting automaton; each is rendered and parsed by the real parser in both attribution modes and print/round-trip, store concatenation and every sub-model's slice are compared with the input; PostLex.tla (mark insertion state machine, invariants checked by TLC) is replayed into the real PostLex class. One character of each of 43 special classes (BOM, NBSP, zero-width, bidi, NEL/LS/PS/VT/FF, NUL, bare CR, astral, combining, escapes, lone surrogate, ...) is inserted at the start, inside and end of every token of base documents; accepted texts must print back unchanged.",
+        text="TLC enumerates every document of Layout.tla (all sequences of structural line classes up to N lines, single-line deviations, LF/CRLF, final line end) together with the grammar's nesting automaton; each is rendered and parsed by the real parser in both attribution modes and print/round-trip, store concatenation and every sub-model's slice are compared with the input; PostLex.tla (mark insertion state machine, invariants checked by TLC) is replayed into the real PostLex class. One character of each of 43 special classes (BOM, NBSP, zero-width, bidi, NEL/LS/PS/VT/FF, NUL, bare CR, astral, combining, escapes, lone surrogate, ...) is inserted at the start, inside and end of every token of base documents; accepted texts must print back unchanged; every sub-model slice is parsed again as its own target, also with blanks / a line end at its very edges (the store must still spell the whole input).",
         note="Small scope: <= 4 (quick) / 5 (thorough) lines over 12 line classes with rotating concrete directives; characters inside lexemes are representatives plus one character per special class at three positions per token (the regex lexer is exercised, not modelled).",
         technique="TLA+ Layout enumeration + PostLex state machine (TLC), replayed on the real parser",
         ref="§2.8, §6 C01"),
     'C10': dict(
-        text="RepList.tla specifies one repeated field and all views onto it with Python list / ordered-dict semantics (PySeq.tla); TLC checks the design invariants and enumerates every call through every view with every index/slice spelling (depth 1) and reduced menus (depth 2-3); each behaviour is replayed on 10 repeated-field families of the real library (load factor rotated) and every view is compared with the specification after every call, including the Python read protocol (len, every index, slices, in, keys/values/items, first-match lookup). The operations inherited from collections.abc (+=, reverse, setdefault, update; iteration both ways, index, count, get) are part of the model. RepImpl.tla - the wrappers' token placement and the views' bisect index arithmetic transcribed statement by statement - is checked by TLC against the canonical rendering and the recomputed filters, each repaired deviation is reproduced as a TLC counterexample, and its behaviours are replayed on the real wrappers with the specification variable rawIdx compared to the private _raw_indexes of every registered view. After node-level and value-level slot edits (Slots.tla, incl. whole repeated fields replaced) every cached derived view must show what the printed document shows.",
+        text="RepList.tla specifies one repeated field and all views onto it with Python list / ordered-dict semantics (PySeq.tla); TLC checks the design invariants and enumerates every call through every view with every index/slice spelling (depth 1) and reduced menus (depth 2-3); each behaviour is replayed on 10 repeated-field families of the real library (load factor rotated) and every view is compared with the specification after every call, including the Python read protocol (len, every index, slices, in, keys/values/items, first-match lookup). The operations inherited from collections.abc (+=, reverse, setdefault, update; iteration both ways, index, count, get) are part of the model. RepImpl.tla - the wrappers' token placement and the views' bisect index arithmetic transcribed statement by statement - is checked by TLC against the canonical rendering and the recomputed filters, each repaired deviation is reproduced as a TLC counterexample, and its behaviours are replayed on the real wrappers with the specification variable rawIdx compared to the private _raw_indexes of every registered view. Membership tests on keys() / values() / items(), iteration both ways, index / count and `x.view += batch` through the attribute are part of the read / write protocol. After node-level and value-level slot edits (Slots.tla, incl. whole repeated fields replaced) every cached derived view must show what the printed document shows.",
         note="Exhaustive within the constants in evidence.replist_runs; lists of <= 3 initial items, batches <= 2-3.",
         technique="TLA+ RepList/PySeq (TLC) + behaviour replay on the real views",
         ref="§2.3, §6 C10"),
@@ -93,12 +93,12 @@ CLAIMED = {
         technique="TLA+ RepList behaviours replayed, WellFormed invariant on the real tree at every step",
         ref="§2.1, §6 C05"),
     'C19': dict(
-        text="Every specification module generates its refused calls as stuttering actions and each is replayed on the real code - the exception class must match and text, token identity row, views and tree must be unchanged: RepList.tla (out-of-range index, missing key, size-mismatched slices, attached donors from the same / another document at every batch position incl. extended slices), Slots.tla (attached donors in every optional / required / repeated slot, incl. nodes whose boundary tokens merely look like their store's), CostSpec.tla (illegal cost combinations), NumExpr.tla (in-place operators with an attached operand), TokenSeqTrace (raw texts the token type cannot represent, directly and after an accepted edit), CommentOwnership (claims of already claimed / absent comments, unsatisfiable selective claim / unclaim requests), spacing token runs that live elsewhere.",
+        text="Every specification module generates its refused calls as stuttering actions and each is replayed on the real code - the exception class must match and text, token identity row, views and tree must be unchanged: RepList.tla (out-of-range index, missing key, size-mismatched slices, attached donors from the same / another document at every batch position incl. extended slices), Slots.tla (attached donors in every optional / required / repeated slot, incl. nodes whose boundary tokens merely look like their store's), TxnStrings.tla (attached nodes handed to raw_payee / raw_narration), CostSpec.tla (illegal cost combinations; attached nodes handed to the raw cost setters from every reached form), one free node at two positions of a batch, operands already consumed by an in-place operator, values a token type cannot format, NumExpr.tla (in-place operators with an attached operand), TokenSeqTrace (raw texts the token type cannot represent, directly and after an accepted edit), CommentOwnership (claims of already claimed / absent comments, unsatisfiable selective claim / unclaim requests), spacing token runs that live elsewhere.",
         note="Refusal sites of repeated fields; other sites (raw_text, cost, arithmetic) are added by their own modules.",
         technique="TLA+ refusal-as-stutter actions (TLC) replayed on the real code",
         ref="§6 C19"),
     'C07': dict(
-        text="TLC exhaustively checks BlockStore.tla - an implementation-shaped transcription of TokenStore (blocks with stored indices, handles, size caches) - against the abstract sequence for every call sequence within small constants; every enumerated behaviour is replayed on the real class (block layout compared as drift); recorded executions are validated by TLC against TokenSeqTrace.tla: a randomized store workload, the repository's own 1586 non-benchmark tests run in place under a recorder plugin with the load factor patched to 2-5, and composed model-level histories; the default load factor is exercised on 2.1k-4.5k-token stores.",
+        text="TLC exhaustively checks BlockStore.tla - an implementation-shaped transcription of TokenStore (blocks with stored indices, handles, size caches) - against the abstract sequence for every call sequence within small constants; every enumerated behaviour (empty stores and empty batches included) is replayed on the real class (block layout compared as drift); recorded executions are validated by TLC against TokenSeqTrace.tla: a randomized store workload, the repository's own 1586 non-benchmark tests run in place under a recorder plugin with the load factor patched to 2-5, and composed model-level histories; the default load factor is exercised on 2.1k-4.5k-token stores.",
         note="Exhaustive within the constants in evidence.design_checks (load factors 2-5, <= 12 live tokens, depth 2-3); larger stores and the default load factor by recorded traces / randomized workload. Trusted: TLC, the Python projection (list(store), getters).",
         technique="TLA+ BlockStore refinement (TLC) + behaviour replay + TLC trace validation incl. the repository's own test suite",
         ref="§2.2, §6 C07"),
